@@ -222,3 +222,67 @@ Print Assumptions C20_bucket_bound_total.
 Print Assumptions C20_zero_rate_exact.
 Print Assumptions C20_zero_rate_exhausted.
 Print Assumptions C20_zero_rate_is_counter.
+
+
+(* ================= C20, outbound queries: the per-send rate policy of Server.Query =================
+   (Query.v, QueryProofs.v; tied to /repo by the `query` engine's policy x NumTries x budget grid) *)
+From Dht Require Query QueryProofs.
+
+Local Close Scope Z_scope.
+Section C20_query.
+  Import Query QueryProofs.
+
+  (* the closure in transactionQuerySender, with w = datagrams this query has written so far *)
+  Theorem C20_query_policy rl w :
+    send_wait rl w = (if Nat.eqb w 0 then negb (rl_no_wait_first rl) else rl_wait_on_retries rl) /\
+    send_rated rl w = (negb (rl_not_any rl) && (if Nat.eqb w 0 then negb (rl_not_first rl) else true)).
+  Proof. exact (query_policy rl w). Qed.
+
+  Theorem C20_query_policy_table w :
+    send_rated rl_zero w = true /\
+    send_rated (mkRL true false false false) w = negb (Nat.eqb w 0) /\
+    send_rated (mkRL false true false false) w = false /\
+    send_rated (mkRL true true false false) w = false /\
+    send_rated (mkRL false false true false) w = true /\
+    send_rated (mkRL false false false true) w = true /\
+    send_wait rl_zero w = Nat.eqb w 0 /\
+    send_wait (mkRL false false true false) w = true /\
+    send_wait (mkRL false false false true) w = false.
+  Proof. exact (query_policy_table w). Qed.
+
+  (* over ALL event schedules: the units a query consumed plus the units left are the units available at
+     its start (so rated sends <= budget), rated sends <= datagrams <= send() calls <= NumTries, and a
+     send is attempted only while every earlier one succeeded *)
+  Theorem C20_query_budget c c0 b0 ls :
+    let s := run c c0 b0 ls in
+    (qc_exact c = true -> q_rated s <= b0 /\ q_rated s + q_budget s = b0) /\
+    q_rated s <= q_writes s /\ q_writes s <= q_sends s /\ q_sends s <= qc_tries c /\
+    (forall x, (enabled c s ESendOk = true \/ enabled c s (ESendErr x) = true) -> q_fail s = None /\ q_writes s = q_sends s).
+  Proof. exact (query_budget c c0 b0 ls). Qed.
+
+  (* a rated first send against an empty budget: nothing is ever written, no unit is taken, and the query
+     returns an error (rate limit -- or closed / blocked / the caller's own cancellation if that comes first) *)
+  Theorem C20_query_no_budget_fails c c0 ls :
+    1 <= qc_tries c -> qc_exact c = true -> send_rated (qc_rl c) 0 = true ->
+    let s := run c c0 0 ls in
+    q_writes s = 0 /\ q_rated s = 0 /\
+    (forall r, q_result s = Some r ->
+       (exists x, r = RSendErr x /\ (x = CRate \/ (x = CClosed /\ q_closed s = true) \/ (x = CBlocked /\ qc_blocked c = true))) \/
+       (r = RCtx /\ q_ctx s = true) \/ r = RReply).
+  Proof. exact (query_no_budget_fails c c0 ls). Qed.
+End C20_query.
+
+(* non-vacuity: NotFirst with 3 tries and a budget of 1: first send unrated, second takes the unit, third refused *)
+Example C20_query_nonvacuous :
+  let c := Query.mkQC 3 false (Query.mkRL true false false false) true in
+  let s := Query.run c false 1 [Query.LRegister; Query.ESendOk; Query.EDelayElapsed; Query.ESendOk; Query.EDelayElapsed;
+                                Query.ESendErr Query.CRate; Query.LSelSendErr; Query.LCancelSend; Query.LJoin; Query.LDeregister] in
+  (Query.q_writes s, Query.q_rated s, Query.q_budget s, Query.q_result s) = (2, 1, 0, Some (Query.RSendErr Query.CRate)) /\
+  (* the third send cannot succeed in that state *)
+  Query.enabled c (Query.run c false 1 [Query.LRegister; Query.ESendOk; Query.EDelayElapsed; Query.ESendOk; Query.EDelayElapsed]) Query.ESendOk = false.
+Proof. vm_compute. split; reflexivity. Qed.
+
+Print Assumptions C20_query_policy.
+Print Assumptions C20_query_policy_table.
+Print Assumptions C20_query_budget.
+Print Assumptions C20_query_no_budget_fails.
